@@ -96,3 +96,29 @@ class Linearity(E2Contract):
     def post(self, W, cfg, inp, out):
         names = ["to_choi_from_hs_with_sparsity", "to_hs_from_choi", "convert_hs", "to_density_matrix_from_vec"]
         return [eq(f"linear/{n}", o[0], o[1], f"{n}(a x + b y) == a {n}(x) + b {n}(y)") for n, o in zip(names, out)]
+
+
+class CompBasis(E2Contract):
+    """the computational basis a composite system reports, in both orders, for single and multi-part systems"""
+    name = "CompositeSystem.comp_basis"
+    prop = "C02"
+    targets = ("quara.objects.composite_system:CompositeSystem.comp_basis", MB + ":get_comp_basis",
+               "quara.objects.elemental_system:ElementalSystem.comp_basis")
+    n_conformance = 1
+
+    def configs(self, tier):
+        return ["1q", "1qt", "2q", "qxqt"]
+
+    def inputs(self, W, cfg, mk):
+        return dict(c_sys=make_csys(W, cfg), probe=mk.real("probe"))
+
+    def run(self, W, cfg, inp):
+        c = inp["c_sys"]
+        return [[W.S.dense(b) for b in c.comp_basis("row_major")], [W.S.dense(b) for b in c.comp_basis("column_major")],
+                [W.S.dense(b) for b in c.comp_basis()]]
+
+    def post(self, W, cfg, inp, out):
+        d = inp["c_sys"].dim
+        return [eq("row_major", out[0], W.S.comp_basis(d, "row_major"), "comp_basis('row_major')[i*d+j] == |i><j|"),
+                eq("column_major", out[1], W.S.comp_basis(d, "column_major"), "comp_basis('column_major')[j*d+i] == |i><j|"),
+                eq("default-is-row_major", out[2], W.S.comp_basis(d, "row_major"), "the default order is row-major")]
